@@ -8,6 +8,8 @@ C11-b  a truncated tail is never classified valid: read failures / short counts 
        under a digest comparison (C05-a) and the write window is armed only for the matching chunk (C05-b).
 C11-c  the download write path uses unbuffered descriptor I/O only (no FILE* writer reachable from the
        callbacks), so what was written before an interruption is on the descriptor.
+C11-d  the restart's scan classifies every chunk (no early exit of the chunk loop except for a detached header), so
+       a chunk that was completely written is found valid and not fetched again (shared with C09-d).
 Declined: the quantification over crash points and the on-disk intermediate states.
 """
 from ..rules import dlmain, dlrules
@@ -31,6 +33,7 @@ def run(ctx):
         dlmain.check_protocol(ck, prog, config, {'scan-first': 'C11-a', 'reset-failed': 'C11-a'})
         dlmain.check_open_flags(ck, prog, config, 'C11-a')
         c09.scan_reads(ck, prog, config, 'C11-b', 'C11-b')
+        c09.scan_loop_exits(ck, prog, config, 'C11-d')
         n = dlrules.valid_inventory(ck, prog, config, 'C11-b')
         ck.min_instances('stores to zckChunk.valid', n, 10)
         dlrules.arming_guard(ck, prog, config, 'C11-b')
